@@ -16,6 +16,9 @@ pub fn identity(name: &str) -> (Vec<u8>, Vec<u8>) {
         "leaf2" => (include_bytes!("../certs/leaf2.pem").to_vec(), include_bytes!("../certs/leaf2.pk8.pem").to_vec()),
         "selfsigned" => (include_bytes!("../certs/selfsigned.pem").to_vec(), include_bytes!("../certs/selfsigned.pk8.pem").to_vec()),
         "small" => (include_bytes!("../certs/small.pem").to_vec(), include_bytes!("../certs/small.pk8.pem").to_vec()),
+        // Ed25519 leaves of the test CA whose raw public key begins with 0xff / 0xfe: "public key + 1" has to carry
+        "edff" => (include_bytes!("../certs/edff.pem").to_vec(), include_bytes!("../certs/edff.pk8.pem").to_vec()),
+        "edfe" => (include_bytes!("../certs/edfe.pem").to_vec(), include_bytes!("../certs/edfe.pk8.pem").to_vec()),
         _ => (include_bytes!("../certs/leaf.pem").to_vec(), include_bytes!("../certs/leaf.pk8.pem").to_vec()),
     }
 }
